@@ -31,10 +31,12 @@ IncSeqs(n, lo, hi) == IF n = 0 THEN {<<>>}
 ValidSets == UNION {{<<0>> \o s \o <<Den>> : s \in IncSeqs(K - 1, 1, Den - 1)} : K \in 1..MaxLayers}
 (* candidate sequences on a coarse lattice, most of them inadmissible *)
 Coarse == {x \in 0..Den : x % InvalidStep = 0}
-Candidates == UNION {[1..n -> Coarse] : n \in 2..3}
+NaNTok == -1            \* "not a number": every comparison with it is false (replayed as float nan)
+Candidates == UNION {[1..n -> Coarse \cup {NaNTok}] : n \in 2..4}
 
+Lt(x, y) == x # NaNTok /\ y # NaNTok /\ x < y
 Valid(s) == /\ Len(s) >= 2 /\ s[1] = 0 /\ s[Len(s)] = Den
-            /\ \A i \in 1..Len(s) - 1 : s[i] < s[i + 1]
+            /\ \A i \in 1..Len(s) - 1 : Lt(s[i], s[i + 1])
 
 K == Len(b) - 1
 DSig(k) == Norm(b[k + 1] - b[k], Den)
